@@ -186,7 +186,7 @@ PLAN_C08 = {
                     "PostgreSQL dialect SQL is executed on SQLite (proxy)"],
 }
 
-AGG = ["project", "wextend", "extend", "select_rows", "cols"]
+AGG = ["project", "wextend", "extend", "select_rows", "cols", "order"]
 PLAN_C09 = {
     "mc": [
         dict(what="laws (ProjectCardinality, WindowKeepsRows in StepLaw), one table, <=2 rows", fams=["project", "wextend"],
